@@ -104,10 +104,15 @@ class _Gen:
             decl += ind + "  @exclusive int *p;\n"
             self.features.add("exclusive-pointer")
         out += decl
+        # OKL inserts the barriers between sibling @inner loops itself when @shared data is involved
+        # (okl/add_barriers); some kernels spell them out, some rely on that
+        explicit = r.random() < 0.6
         for ph in range(phases):
-            if ph > 0:
+            if ph > 0 and explicit:
                 out += ind + "  @barrier();\n"
                 self.features.add("barrier")
+            elif ph > 0:
+                self.features.add("implicit-barrier")
             if inner2:
                 self.features.add("inner2")
                 out += ind + "  for (int ia = 0; ia < %d; ++ia; @inner) {\n" % (I // 2)
